@@ -911,6 +911,21 @@ fn run_case(gen: &str, index: u64, seed: u64, tier: Tier, rep: &mut Report) {
             ] {
                 check_string(&s, 12, 8, &mut rng, rep);
             }
+            // declared lengths at the top of the varint range (the payload can never be complete):
+            // nothing, one byte or a few bytes of payload, then the end of the stream or silence
+            for ty in [rf::T_DATA, rf::T_HEADERS, 0x21, rf::unknown_type(3), rf::T_GOAWAY, rf::T_SETTINGS] {
+                for len in [(1u64 << 62) - 1, (1 << 62) - 2, 1 << 61, (1 << 32) + 1, u32::MAX as u64, 1 << 30] {
+                    for tail in [&b""[..], b"\x00", b"abc"] {
+                        let mut s = rf::frame_forms(ty, rv::size(ty), len, 8, &[]).expect("forms fit");
+                        s.extend_from_slice(tail);
+                        check_string(&s, 12, 6, &mut rng, rep);
+                        let mut t = rf::frame(rf::T_DATA, b"xy");
+                        t.extend(&s);
+                        check_string(&t, 9, 6, &mut rng, rep);
+                        rep.count("huge_declared_length_strings");
+                    }
+                }
+            }
         }
         _ => {}
     }
